@@ -2,7 +2,7 @@ import TracklibVerif.Model.Graph
 import TracklibVerif.Model.GraphPathExt
 import TracklibVerif.Drv.Util
 import TracklibVerif.Drv.C06
-/-! Driver handler for C07 (shortest path reconstruction), weights in `Rat`, points on the integer lattice.
+/-! Driver handler for C07 (shortest path reconstruction), weights in `Rat` (or `Float`, commands prefixed with `f`), points on the integer lattice.
 The backward pass is run through the TRACK operators of the C04 model (`TV.GraphExt.runBackwardT`): every vertex
 occurrence (node positions first, then the vertices of the edge polylines in order) is an observation with its own
 tag; the reply gives the coordinates of the observations of the returned track.
@@ -22,7 +22,8 @@ tag; the reply gives the coordinates of the observations of the returned track.
         `F:<s>:<t|->:<cut>:<d>`   run_routing_forward      → `ok`
         `B:<t>`                   run_routing_backward     → `<path>@<label>` | `attr` (no search yet: AttributeError)
      → the outputs joined by `|` (`_` when there is no op), then `#`, then the entries `s,v,d` (`;`) of the session's
-       `output_dict` -/
+       `output_dict`
+  fpaths / fsession: the same with weights, cut-offs and labels as IEEE-754 bit patterns (model instantiated at `Float`) -/
 namespace TV.Drv.C07
 open TV.Graph TV.GraphExt TV.Drv
 
@@ -50,7 +51,10 @@ structure Scene where
   geo : GeoT
   coords : Array (Int × Int)
 
-def scene (net : Net Rat) (af : Bool) (posl : List (Int × Int)) (ls : List (List (Int × Int))) : Scene :=
+section generic
+variable {W : Type} (pw : String → Option W) (sw : W → String)
+
+def scene (net : Net W) (af : Bool) (posl : List (Int × Int)) (ls : List (List (Int × Int))) : Scene :=
   let trs := (net.edges.map (·.id)).zip (edgeTracks af net.n (ls.map (·.length)))
   { geo := { pos := fun v => { tag := v, time := 0, feats := [] },
              geom := fun i => ((trs.find? (fun p => p.1 == i)).map (·.2)).getD emptyT },
@@ -64,7 +68,7 @@ def showBackT (sc : Scene) : BackT → String
       joinWith "," (nodes.map toString) ++ ":" ++ showPts (trk.pts.map (fun o => sc.coords.getD o.tag (0, 0)))
     else "features"
 
-def showLabel : Option Rat → String := showOpt showRat
+def showLabel : Option W → String := showOpt sw
 
 def nodeArg? (n : Nat) (s : String) : Option NodeArg :=
   if s.startsWith "o" then
@@ -77,41 +81,41 @@ def optNodeArg? (n : Nat) (s : String) : Option (Option NodeArg) :=
 def flag? (s : String) : Option Bool :=
   if s == "1" then some true else if s == "0" then some false else none
 
-def op? (n : Nat) (s : String) : Option (Op Rat) :=
+def op? (n : Nat) (s : String) : Option (Op W) :=
   match splitTok s ':' with
   | ["P", a, b, c, d] => do
     let a ← nodeArg? n a
     let b ← nodeArg? n b
-    let c ← C06.cut? c
+    let c ← C06.cutW? pw c
     let d ← flag? d
     pure (.path a b c d)
   | ["D", a, b, c, d] => do
     let a ← nodeArg? n a
     let b ← optNodeArg? n b
-    let c ← C06.cut? c
+    let c ← C06.cutW? pw c
     let d ← flag? d
     pure (.dist a b c d)
   | ["F", a, b, c, d] => do
     let a ← nodeArg? n a
     let b ← optNodeArg? n b
-    let c ← C06.cut? c
+    let c ← C06.cutW? pw c
     let d ← flag? d
     pure (.fwd a b c d)
   | ["B", b] => (nodeArg? n b).map .back
   | _ => none
 
-def showOut (sc : Scene) : Out Rat → String
-  | .path b label => showBackT sc b ++ "@" ++ showLabel label
-  | .dist d => "d=" ++ showLabel d
-  | .dists l => "l=" ++ joinWith "," (l.map showLabel)
+def showOut (sc : Scene) : Out W → String
+  | .path b label => showBackT sc b ++ "@" ++ showLabel sw label
+  | .dist d => "d=" ++ showLabel sw d
+  | .dists l => "l=" ++ joinWith "," (l.map (showLabel sw))
   | .done => "ok"
   | .attrErr => "attr"
 
-def showDict (n : Nat) (tb : Table Rat) : String :=
+def showDict (n : Nat) (tb : Table W) : String :=
   joinWith ";" ((List.range n).flatMap (fun s => (List.range n).filterMap (fun v =>
-    (tb (s, v)).map (fun d => s!"{s},{v},{showRat d}"))))
+    (tb (s, v)).map (fun d => s!"{s},{v},{sw d}"))))
 
-def geometry? (net : Net Rat) (af : Bool) (pos lines : String) : Option Scene :=
+def geometry? (net : Net W) (af : Bool) (pos lines : String) : Option Scene :=
   match (splitTok pos ';').mapM line?, (splitTok lines ';').mapM line? with
   | some ps, some ls =>
     if ps.length == net.n && ps.all (·.length == 1) && ls.length == net.edges.length then
@@ -119,26 +123,35 @@ def geometry? (net : Net Rat) (af : Bool) (pos lines : String) : Option Scene :=
     else none
   | _, _ => none
 
-def handle (cmd : String) (args : List String) : String :=
+variable [LT W] [DecidableLT W] [Add W] [OfNat W 0]
+
+def handleW (cmd : String) (args : List String) : String :=
   match cmd, args with
   | "paths", [n, es, pos, lines, c] =>
-    match C06.net? n es, C06.cut? c with
+    match C06.netW? pw n es, C06.cutW? pw c with
     | some net, some cut =>
       match geometry? net false pos lines with
       | some sc =>
         let res := (List.range net.n).flatMap (fun s => (List.range net.n).map (fun t =>
-          showBackT sc (shortestPathT net sc.geo s t cut) ++ "@" ++ showLabel (shortestDistance net s t cut)))
+          showBackT sc (shortestPathT net sc.geo s t cut) ++ "@" ++ showLabel sw (shortestDistance net s t cut)))
         if res.isEmpty then "_" else "|".intercalate res
       | none => "bad-request"
     | _, _ => "bad-request"
   | "session", [n, order, es, pos, lines, af, ops] =>
-    match C06.net? n es, flag? af with
+    match C06.netW? pw n es, flag? af with
     | some net, some af =>
-      match C06.order? net.n order, geometry? net af pos lines, (splitTok ops ';').mapM (op? net.n) with
+      match C06.order? net.n order, geometry? net af pos lines, (splitTok ops ';').mapM (op? pw net.n) with
       | some order, some sc, some ops =>
         let r := runSession net sc.geo order Sess.start ops
-        joinWith "|" (r.1.map (showOut sc)) ++ "#" ++ showDict net.n r.2.dict
+        joinWith "|" (r.1.map (showOut sw sc)) ++ "#" ++ showDict sw net.n r.2.dict
       | _, _, _ => "bad-request"
     | _, _ => "bad-request"
   | _, _ => "bad-request"
+end generic
+
+/-- `paths` / `session`: weights, cut-offs and labels are rationals; `fpaths` / `fsession`: IEEE-754 bit patterns, the
+same model definitions instantiated at `Float` -/
+def handle (cmd : String) (args : List String) : String :=
+  if cmd.startsWith "f" then handleW C06.fl? showFloat (cmd.drop 1).toString args
+  else handleW rat? showRat cmd args
 end TV.Drv.C07
